@@ -118,6 +118,8 @@ def run(ctx):
     check_use_site(ctx)
     check_cross_kind(ctx)
     check_ordered_equality(ctx, fns)
+    import c10, engine
+    c10.run(engine.AliasCtx(ctx, {"R10.2": "R07.8"}))
 
 
 def check_variance(ctx, fns):
